@@ -635,6 +635,81 @@ fn c15_profile(r: &mut Rng) -> Profile {
 #[derive(PartialEq, Debug)]
 struct Results(Vec<(&'static str, Outcome)>);
 
+/// C15, the transport's send buffer fills up after k bytes of a request's packet (the caller gives
+/// the request up there) and whatever the application does next finds a transport that accepts
+/// the rest whole, byte by byte, or in other pieces: the outbound stream must be the same.
+fn send_buffer_full(rng: &mut Rng, seed: u64, verbose: bool) -> CaseOut {
+    let mut out = CaseOut::default();
+    let cfg = CaseCfg { rx: 128, tx: 512, keepalive: 0, ..CaseCfg::default() };
+    let request = match rng.below(4) {
+        0 => pub1("w", 1, rng.below(20)),
+        1 => pubq(2, "w2", 2, rng.below(20)),
+        2 => Step::Subscribe(SubSpec { filters: vec![FilterSpec { filter: "w/#".into(), max_qos: 1, no_local: false, rap: false, rh: 0 }], props: vec![], cancel_at: None }),
+        _ => Step::Unsubscribe(UnsubSpec { filters: vec!["w".into(), "x/y".into()], props: vec![], cancel_at: None }),
+    };
+    let next = match rng.below(5) {
+        0 | 1 => Step::Disconnect(DiscSpec { reason: *rng.pick(&[None, Some(4u8)]), props: None, cancel_at: None }),
+        2 => poll0(),
+        3 => Step::Publish(PubSpec { topic: "z".into(), payload: PayloadSpec::Fill { len: 3, tag: 9, ascii: false }, qos: 0, retain: false, props: vec![], correlate: None, cancel_at: None }),
+        _ => pub1("n", 3, 2),
+    };
+    // length of the request's packet
+    let len = {
+        let (_l, w) = run_script(&cfg, vec![connect_with(SpMode::Force(false), AckMode::Hold, vec![]), request.clone()], seed);
+        let w = w.borrow();
+        w.conns[0].out.packets.get(1).map(|p| p.end - p.start).unwrap_or(0)
+    };
+    if len < 3 {
+        return out;
+    }
+    let k = 1 + rng.below(len - 1);
+    let chunks = [Chunk::All, Chunk::One, Chunk::Fixed(2), Chunk::Fixed(3), Chunk::AltOneAll, Chunk::AllButOne];
+    let mut reference: Option<(Vec<u8>, Vec<String>)> = None;
+    for (vi, ch) in chunks.iter().enumerate() {
+        let steps = vec![
+            connect_with(SpMode::Force(false), AckMode::Hold, vec![]),
+            Step::Broker(BrokerAct::WriteGate { after: k, blocks: 1 }),
+            request.clone(),
+            // from here on the transport accepts writes in this variant's pieces
+            Step::Io { policy: Some(IoPolicy { write: *ch, ..IoPolicy::default() }), faults: vec![] },
+            next.clone(),
+            poll0(),
+            poll0(),
+        ];
+        let (log, world) = run_script(&cfg, steps, seed);
+        let w = world.borrow();
+        out.evaluations += 1;
+        out.count("twins_compared", 1);
+        let stuck = log.ops.get(1).is_some_and(|o| o.outcome == Outcome::CallerTimeout && o.out_after - o.out_before == k);
+        if stuck {
+            out.count("requests_given_up_inside_their_packet", 1);
+            if vi > 0 {
+                out.count("variants_with_split_packets", 1);
+                out.nontrivial.push(hash_of(&(abstract_trace(&log, &w), vi, k)));
+            }
+        }
+        let bytes = w.conns[0].out.bytes.clone();
+        let results: Vec<String> = log.ops.iter().map(|o| format!("{}:{:?}", o.kind, o.outcome)).collect();
+        match &reference {
+            None => reference = Some((bytes, results)),
+            Some((rb, rr)) => {
+                if *rb != bytes || *rr != results {
+                    let at = rb.iter().zip(&bytes).position(|(a, b)| a != b).unwrap_or(rb.len().min(bytes.len()));
+                    out.violations.push(viol("C15", "C15/send-buffer-full/stream-depends-on-write-pieces", format!("request given up after {} of {} bytes, then {}: with writes accepted {:?} the outbound stream / results differ from whole-buffer writes at byte {} ({} vs {} bytes; results {:?} vs {:?})", k, len, next.kind(), ch, at, bytes.len(), rb.len(), results, rr)));
+                    if verbose {
+                        for l in render(&log, &w, 300) {
+                            println!("{}", l);
+                        }
+                    }
+                    break;
+                }
+            }
+        }
+    }
+    out.key(format!("send-buffer-full/{}/then-{}", request.kind(), next.kind()));
+    out
+}
+
 /// C15, the connection ends while only the first k bytes of a packet have arrived, for every k:
 /// what the next connection of the session does must not depend on k (in none of the runs the
 /// packet was received, so the session is in the same state).
@@ -865,13 +940,13 @@ impl Check for C15 {
         v
     }
     fn workloads(&self) -> Vec<Workload> {
-        vec![Workload { name: "fragment-twin", quick: 900, thorough: 600_000 }, Workload { name: "exhaustive-chunkings", quick: 60, thorough: 6000 }, Workload { name: "stalls-under-keepalive", quick: 400, thorough: 600_000 }, Workload { name: "connection-cut-inside-a-packet", quick: 150, thorough: 30_000 }]
+        vec![Workload { name: "fragment-twin", quick: 900, thorough: 600_000 }, Workload { name: "exhaustive-chunkings", quick: 60, thorough: 6000 }, Workload { name: "stalls-under-keepalive", quick: 400, thorough: 600_000 }, Workload { name: "connection-cut-inside-a-packet", quick: 150, thorough: 30_000 }, Workload { name: "send-buffer-full-inside-a-packet", quick: 300, thorough: 60_000 }]
     }
     fn min_nontrivial(&self, tier: Tier) -> usize {
         if tier == Tier::Quick { 300 } else { 3000 }
     }
     fn required_counters(&self) -> Vec<&'static str> {
-        vec!["twins_compared", "chunkings_enumerated_exhaustively", "variants_with_split_packets", "stalls_inside_a_packet", "calls_repeated_after_a_stall", "keepalive_stall_variants", "slow_partial_writes", "connections_cut_inside_a_packet"]
+        vec!["twins_compared", "chunkings_enumerated_exhaustively", "variants_with_split_packets", "stalls_inside_a_packet", "calls_repeated_after_a_stall", "keepalive_stall_variants", "slow_partial_writes", "connections_cut_inside_a_packet", "requests_given_up_inside_their_packet"]
     }
     fn exhaustive(&self) -> bool {
         true
@@ -884,6 +959,9 @@ impl Check for C15 {
         }
         if workload == 3 {
             return cut_inside_packet(&mut rng, seed, verbose);
+        }
+        if workload == 4 {
+            return send_buffer_full(&mut rng, seed, verbose);
         }
         let profile = c15_profile(&mut rng);
         let cfg = {
